@@ -26,7 +26,7 @@ COMPONENTS = {"real": ["ECAgent.Core._MetaAgent (per-class _components / _tag, a
 PROBES = ["explicit_tag_zero_with_nonzero_default", "tag_set_on_Agent_itself", "class_component_on_environment_class",
           "reject_duplicate_attach", "reject_detach_absent", "instance_component_attached", "subclass_instantiated_after_tag",
           "parent_instantiated_after_child_tag", "child_instantiated_after_parent_tag", "depth_3_chain", "sibling_isolation_checked", "class_created_mid_history", "class_cloned_from_namespace",
-          "shared_namespace_dict", "model_lifecycle_op", "many_classes", "class_level_op_inside_creation_hook", "model_built_mid_history", "classes_sharing_module_and_qualname", "diamond_of_environment_and_agent_class"]
+          "shared_namespace_dict", "model_lifecycle_op", "many_classes", "class_level_op_inside_creation_hook", "model_built_mid_history", "classes_sharing_module_and_qualname", "diamond_of_environment_and_agent_class", "default_tag_set_inside_the_constructor"]
 TECHNIQUE = "deterministic simulation: seeded class-level attach/detach/tag histories over generated hierarchies, pristine forked process per history, per-class reference"
 LEVEL_TEXT = ("Seeded search over class hierarchies and class-level histories; after every operation, for every class in the "
               "hierarchy including Agent and Environment, class components, length, membership and default tag must equal a "
@@ -45,8 +45,8 @@ class P1(P0):           # a subclass of P0: stores are keyed by the exact class 
     pass
 
 
-class P2(Component):
-    """A container-like component: falsy (it defines __len__ and holds nothing). Presence is never a matter of truthiness."""
+class P2(Component, __import__("abc").ABC):
+    """(its metaclass is abc.ABCMeta, not `type`.) A container-like component: falsy (it defines __len__ and holds nothing). Presence is never a matter of truthiness."""
 
     def __len__(self):
         return 0
@@ -82,6 +82,14 @@ class Grazer(Agent):
 
     def __init__(self, id, model, tag=None):
         super().__init__(id, model, tag=5 if tag is None else tag)
+
+
+class LazyTag(Agent):
+    """An agent class that sets up its own default tag lazily, in its constructor, before handing over to Agent.__init__."""
+
+    def __init__(self, id, model):
+        type(self).tag = 4
+        super().__init__(id, model)
 
 
 def make_species(base):
@@ -146,7 +154,7 @@ def generate(rng, tier):
             ops.insert(at, {"op": "new_model"})
             ops.insert(rng.randint(at + 1, len(ops)), {"op": "touch_models", "step": rng.random() < 0.3})
     many = rng.choice([140, 180, 260]) if rng.random() < (0.04 if tier == "thorough" else 0.015) else 0
-    return {"classes": classes, "ops": ops, "many": many, "diamond": rng.random() < 0.08}
+    return {"classes": classes, "ops": ops, "many": many, "diamond": rng.random() < 0.08, "lazy_tag": rng.random() < 0.08}
 
 
 def execute(sc, ctx):
@@ -403,6 +411,13 @@ def execute(sc, ctx):
         ctx.state([[len(c) for c in comps], tags, kind])
     deep = any(depth(i) >= 2 for i in range(len(built)) if i not in (idx_agent, idx_env))
     ctx.nontrivial = deep and has_sibling and any(m_ >= {"self", "parent", "child"} for m_ in tagged_sub.values())
+    if sc.get("lazy_tag"):
+        # the default tag that counts is the class's CURRENT one when the agent is initialised
+        ctx.probe("default_tag_set_inside_the_constructor")
+        first = ctx.expect_ok("instantiate-lazy", LazyTag, "lazy-1", m)
+        ctx.check(first.tag == 4 and LazyTag.tag == 4, "instance-default-tag",
+                  f"LazyTag sets its class default to 4 before Agent.__init__ runs; the instance has tag {first.tag!r}")
+        ctx.check(Agent.tag == tags[idx_agent], "default-tag-visibility", f"LazyTag.tag = 4 leaked into Agent.tag = {Agent.tag!r}")
     if sc.get("diamond"):
         # environments are agents too, also in a diamond: class Pasture(Environment, Grazer) - Environment's constructor must
         # pass control on along the MRO, so that Grazer's explicit tag reaches Agent and wins over Pasture's default tag
